@@ -26,6 +26,7 @@
 -/
 import DisjointImpls.Lemmas.MatchSound
 import DisjointImpls.Lemmas.MatchComplete
+import DisjointImpls.MatchSchema
 namespace DI
 
 /-! ## Theorems -/
@@ -270,5 +271,19 @@ example :
     sup a b = .yes [("_ŠČ0", .ty (leaf "u8")), ("_ŠČ1", .identity)] false := by decide
 
 end Counterexamples
+
+
+/-! ## The source's field schema (regenerated facts)
+
+`MatchFacts.lean` is regenerated from /repo/src/superset.rs, /repo/src/superset/*.rs and the pinned syn sources on every run of
+the check; `MatchSchema.lean` is the schema the model (and the decoder) assume. -/
+
+/-- every non-punctuation field of every syn struct with an `impl Superset` is mentioned by its `is_superset`, except exactly
+    the fields the model treats as ignored (`MatchSchema.supersetIgnored`: presentation, the two lenient findings, `unimplemented!()` arms) -/
+theorem C09_every_field_examined :
+    MatchSchema.unexamined MatchFacts.supersetMentions = MatchSchema.supersetIgnored := by decide +kernel
+
+/-- the set of types with an `impl Superset` is the one the model covers -/
+theorem C09_superset_impls : MatchFacts.supersetMentions.map Prod.fst = MatchSchema.supersetImpls := by decide +kernel
 
 end DI
